@@ -266,6 +266,46 @@ theorem dup_names_witness :
   intro h
   simp [ScopesDisjoint, Monitor.informers, createForNs, scopesApart] at h
 
+/-- The sorting routine the executable model uses meets the contract assumed of `sort.Sort` (so
+the contract is satisfiable and the driver's answers are covered by the theorems above). -/
+theorem model_sort_meets_contract (ridOf : Key → Nat) : SortContract ridOf (modelSort ridOf) :=
+  modelSort_contract ridOf
+
+/-- **C02.2 `snapshot_concurrent`** Changes arriving concurrently with the snapshot read.
+`n` informers, informer `i` starts from `init i` and has the watch events `evs i` still to handle;
+a schedule interleaves watch-thread steps (`w i`: one event of informer `i`, one `cacheLock`
+section) with the reader's steps (`r`: `getCachedObjects()` of the next informer). For EVERY
+schedule in which the reader gets through all informers, `Snapshot()` returns the sort of the
+union of every informer's cache as it was after some prefix `cut i` of its events — a prefix
+that informer had actually handled during the call (`cut i ≤ handled i ≤ |evs i|`): each informer's
+cache at some instant inside the call, never a torn or invented state. -/
+theorem snapshot_concurrent (cfg : Cfg) (init : Nat → Cache) (evs : Nat → List WatchEv) (n : Nat)
+    (sched : List CAct) (srt : List Entry → List Entry)
+    (hdone : (crun cfg (cinit init evs n) sched).next = n) :
+    srt (crun cfg (cinit init evs n) sched).acc =
+      srt ((List.range n).map (fun i => cacheAt cfg init evs i ((crun cfg (cinit init evs n) sched).cut i))).flatten ∧
+    ∀ i, i < n → (crun cfg (cinit init evs n) sched).cut i ≤ (crun cfg (cinit init evs n) sched).handled i ∧
+      (crun cfg (cinit init evs n) sched).handled i ≤ (evs i).length := by
+  obtain ⟨hinv, _⟩ := cinv_run cfg init evs sched _ (cinv_init cfg init evs n)
+  refine ⟨by rw [hinv.acc, hdone], fun i hi => ⟨hinv.cut i (by rw [hdone]; exact hi), hinv.handled i⟩⟩
+
+/-- … and each of those per-informer states is the fold of that prefix over the informer's list
+(`cache_tracks_events`), so the elements are filtered images of objects the informer was told
+about. -/
+theorem concurrent_state_tracks (cfg : Cfg) (items : Nat → List Obj) (evs : Nat → List WatchEv) (i k : Nat) :
+    Tracks cfg (cacheAt cfg (fun j => loadExisted cfg [] (items j)) evs i k)
+      (specAfter (items i) ((evs i).take k)) :=
+  tracks_runInformer cfg (items i) ((evs i).take k)
+
+/-- non-vacuity: two informers; the reader takes informer 0, then informer 0 and 1 each handle an
+event, then the reader takes informer 1: informer 0 is seen before, informer 1 after its event. -/
+example :
+    let cfg : Cfg := { keepFull := false, flt := id, chk := id }
+    let o (ns c : Nat) : Obj := ⟨⟨ns, 1, 1⟩, c, 0⟩
+    let s := crun cfg (cinit (fun i => loadExisted cfg [] [o i 5]) (fun i => [(.modified, o i 6)]) 2)
+      [.r, .w 0, .w 1, .r]
+    s.next = 2 ∧ s.acc = [mkEntry cfg (o 0 5), mkEntry cfg (o 1 6)] ∧ s.cut 0 = 0 ∧ s.cut 1 = 1 := by decide
+
 /-! ## 3. UpdateSnapshots -/
 
 /-- **C02.3 `update_snapshots_keys`** For every context of an execution the keys of `snapshots` are
